@@ -203,3 +203,57 @@ Example C18_masked_array_renders :
         ++ tok "VALUE" ++ T "3" ++ tok "PUNC" ++ T "']" ++ OFF)
   /\ erase_cell masked_cell <> masked_cell.
 Proof. exact masked_array_renders. Qed.
+
+(* ---------------- (e) round 7: columns are positional ---------------- *)
+
+(* The width of column j in closed form: min(max_column_width, max(its own name, its own type text when the type row is
+   shown, calculate_data_width of its own shown cells)).  Nothing else enters: not another column's cells, not whether
+   another column carries the same name (there is no lookup by name anywhere in the model of ascii_table). *)
+Theorem C18_column_width_is_its_own :
+  forall (f : frame) (cfg : config) (t : list (list cell)) (j : nat) (nm ty : text),
+  nth_error (names f) j = Some nm -> nth_error (col_types f) j = Some ty ->
+  nth_error (col_widths f cfg t) j =
+  Some (Nat.min (Nat.max (Nat.max (length nm) (if show_types cfg then length ty else 0)) (data_width t j)) (mcw cfg)).
+Proof. exact col_widths_nth. Qed.
+Print Assumptions C18_column_width_is_its_own.
+
+(* Nothing but max_column_width cuts a cell: column j is at least as wide as the text of each of its own shown non-null
+   cells and as its own name, up to max_column_width. *)
+Theorem C18_column_wide_enough :
+  forall (f : frame) (cfg : config) (t : list (list cell)) (j : nat) (nm ty : text) (r : list cell) (c : cell),
+  nth_error (names f) j = Some nm -> nth_error (col_types f) j = Some ty ->
+  In r t -> nth_error r j = Some c -> is_none c = false ->
+  exists w, nth_error (col_widths f cfg t) j = Some w /\
+            Nat.min (length (cell_str c)) (mcw cfg) <= w /\ Nat.min (length nm) (mcw cfg) <= w /\ w <= mcw cfg.
+Proof. exact column_wide_enough. Qed.
+Print Assumptions C18_column_wide_enough.
+
+(* A number (int, float, Decimal) in a shown row whose text is not longer than max_column_width is printed with every
+   digit, right-aligned in its column. *)
+Theorem C18_number_shown_in_full :
+  forall (f : frame) (cfg : config) (t : list (list cell)) (j : nat) (nm ty : text) (r : list cell) (c : cell)
+         (tk : String.string) (s : text),
+  nth_error (names f) j = Some nm -> nth_error (col_types f) j = Some ty ->
+  In r t -> nth_error r j = Some c -> numeric_cell c tk s -> length s <= mcw cfg ->
+  exists w, nth_error (col_widths f cfg t) j = Some w /\ length s <= w /\
+            type_formatter c w = Ok (tok tk ++ spaces (w - length s) ++ s ++ OFF).
+Proof. exact number_shown_in_full. Qed.
+Print Assumptions C18_number_shown_in_full.
+
+(* Renaming the columns to names of the same lengths - all to ONE name included - changes the header line and nothing
+   else: the same top rule, type row, separator, row lines (cells, widths, labels, ellipsis) and bottom rule, and the
+   same error if there is one. *)
+Theorem C18_names_only_in_header :
+  forall (f : frame) (ns : list text) (cfg : config),
+  map (@length N) ns = map (@length N) (names f) ->
+  match inner_tagged f cfg, inner_tagged (rename f ns) cfg with
+  | Ok ls, Ok ls' => exists top hd hd' rest, ls = top :: hd :: rest /\ ls' = top :: hd' :: rest
+  | Raise e, Raise e' => e = e'
+  | _, _ => False
+  end.
+Proof. exact names_only_in_header. Qed.
+Print Assumptions C18_names_only_in_header.
+
+(* schema id, id, km with the wider values in the SECOND id column: widths 4, 8, 4 *)
+Example C18_repeated_name_widths : col_widths dup_frame dup_cfg (rows dup_frame) = [4; 8; 4].
+Proof. exact dup_frame_widths. Qed.
